@@ -31,10 +31,12 @@ type c17FileSpec struct {
 	DelayMs int    `json:"report_delay_ms"`
 	HoldOn  string `json:"hold_on"` // "" | enter | done : verdict held until the k-th chunk entered / finished its frame
 	HoldK   int    `json:"hold_k"`
+	Pattern string `json:"report_pattern,omitempty"` // bitmap-byte-boundary family (c17bounds.go) only
 }
 
 type c17Trace struct {
 	ID       int           `json:"id"`
+	Class    string        `json:"class,omitempty"` // "" = first family, "bitmap-byte-boundary" = c17bounds.go
 	Streams  int           `json:"streams"`
 	CS       uint32        `json:"chunk_size"`
 	JitterUs int           `json:"jitter_us"`
@@ -555,7 +557,7 @@ type c17Finding struct{ key, what string }
 // c17Judge applies the per-file oracle to the hook event order. Every clause
 // is a necessary condition of correct behaviour in terms of hook sequence
 // numbers (taken / plan.applied are logged under the state's own mutex).
-func c17Judge(rec *c17FileRec, wire *c17Wire, completed bool) (finds []c17Finding, sig string, tags []string) {
+func c17Judge(rec *c17FileRec, wire *c17Wire, completed bool) (finds []c17Finding, sig string, tags []string, lastByteLeftOut int) {
 	in := rec.spec.In
 	rec.mu.Lock()
 	evs := append([]c17Ev(nil), rec.ev...)
@@ -594,6 +596,10 @@ func c17Judge(rec *c17FileRec, wire *c17Wire, completed bool) (finds []c17Findin
 
 	wire.mu.Lock()
 	begins, ends := wire.begins[rec.key], wire.ends[rec.key]
+	frames := map[int]int{} // chunk frames the scripted receiver read off the data streams
+	for idx, c := range wire.got[rec.key] {
+		frames[int(idx)] = c
+	}
 	wire.mu.Unlock()
 	if begins > 1 {
 		add("filebegin:double", fmt.Sprintf("%d FileBegin records for one file", begins))
@@ -655,6 +661,33 @@ func c17Judge(rec *c17FileRec, wire *c17Wire, completed bool) (finds []c17Findin
 	}
 	if pSeq != 0 && takenBeforeP > 0 {
 		tags = append(tags, "plan-after-first-take")
+	}
+	if completed && in.Report && pSeq != 0 && takenBeforeP == 0 {
+		// The report was known before the first chunk was handed out: whatever it lists as present below
+		// the verification point must not be on the wire at all (the failed verification chunk: once).
+		// The frames are those the scripted receiver had read when the sender returned - a lower bound.
+		lb, lastPresent := c17LastByteStart(in.N), false
+		for i := 0; i < in.N; i++ {
+			if in.needed(i) {
+				continue
+			}
+			extra := 0
+			if wrong && i == in.V {
+				extra = 1
+			}
+			if frames[i] > extra {
+				add("chunk:sent-present-after-report", fmt.Sprintf("chunk %d of %d (reported present, below the verification point; report applied before the first chunk was handed out) arrived in %d data frames, %d allowed", i, in.N, frames[i], extra))
+			}
+			if i >= lb {
+				lastPresent = true
+				if len(T[i]) == 0 && frames[i] == 0 {
+					lastByteLeftOut++
+				}
+			}
+		}
+		if lastPresent {
+			tags = append(tags, c17TagLastByteJudged)
+		}
 	}
 	if len(E) > 0 {
 		e0 := E[0]
@@ -748,6 +781,9 @@ func c17Judge(rec *c17FileRec, wire *c17Wire, completed bool) (finds []c17Findin
 func c17PartA(e *Env) {
 	n := e.Pick(600, 5000)
 	traces := c17GenTraces(e, n)
+	// second family: chunk counts on / next to the byte boundaries of the resume bitmap (c17bounds.go)
+	traces = append(traces, c17GenBoundaryTraces(e, e.Pick(300, 1500), n)...)
+	bobs := newC17BoundaryObs()
 	lp, err := vk.NewListenerPool(16, 8*time.Second)
 	if err != nil {
 		e.R.Inconcl("listener pool: " + err.Error())
@@ -764,7 +800,7 @@ func c17PartA(e *Env) {
 	orders := map[string]int{}
 	tagCount := map[string]int{}
 	timingCount := map[string]int{}
-	files, completed, samples, plain := 0, 0, 0, 0
+	files, completed, samples, plain, bsamples := 0, 0, 0, 0, 0
 	var senderErrs []string
 	vk.ParallelDo(len(traces), 16, func(i int) {
 		tr := traces[i]
@@ -782,7 +818,7 @@ func c17PartA(e *Env) {
 		var outs []fileOut
 		nviol := 0
 		for f, rec := range res.Recs {
-			finds, sig, tags := c17Judge(rec, res.Wire, res.Completed)
+			finds, sig, tags, leftOut := c17Judge(rec, res.Wire, res.Completed)
 			outs = append(outs, fileOut{rec.spec, sig, tags})
 			mu.Lock()
 			files++
@@ -792,10 +828,16 @@ func c17PartA(e *Env) {
 				for _, t := range tags {
 					tagCount[t]++
 				}
+				if rec.spec.Pattern != "" {
+					bobs.note(rec.spec, tags, leftOut)
+				}
 			}
 			mu.Unlock()
 			if res.Completed && sig != "" {
 				e.R.Distinct("a:" + rec.spec.In.String() + "|" + sig)
+			}
+			if res.Completed && rec.spec.Pattern != "" {
+				e.R.Distinct("a-boundary:" + c17BoundaryCell(rec.spec) + "/" + rec.spec.In.Verify + "/" + rec.spec.Timing)
 			}
 			seen := map[string]bool{}
 			for _, fd := range finds {
@@ -821,9 +863,19 @@ func c17PartA(e *Env) {
 				}
 			}
 		}
-		doSample := res.Completed && ((interesting && samples < 3) || plain < 1)
+		boundary := false
+		for _, o := range outs {
+			for _, t := range o.Tags {
+				if t == c17TagLastByteJudged && o.Spec.Pattern != "" && o.Spec.In.N <= 17 {
+					boundary = true
+				}
+			}
+		}
+		doSample := res.Completed && ((interesting && samples < 3) || plain < 1 || (boundary && bsamples < 2))
 		if doSample {
-			if interesting {
+			if boundary && bsamples < 2 {
+				bsamples++
+			} else if interesting {
 				samples++
 			} else {
 				plain++
@@ -831,7 +883,7 @@ func c17PartA(e *Env) {
 		}
 		mu.Unlock()
 		if doSample {
-			c17Sample("a", map[string]any{"part": "a", "trace_id": tr.ID, "streams": tr.Streams, "chunk_size": tr.CS, "jitter_us": tr.JitterUs, "files": outs, "dur_ms": res.DurMs})
+			c17Sample("a", map[string]any{"part": "a", "trace_id": tr.ID, "class": tr.Class, "streams": tr.Streams, "chunk_size": tr.CS, "jitter_us": tr.JitterUs, "files": outs, "dur_ms": res.DurMs})
 		}
 		if !res.Completed && nviol == 0 {
 			dbg, _ := json.Marshal(outs)
@@ -865,6 +917,7 @@ func c17PartA(e *Env) {
 	e.R.SetExtra("a_files_by_report_timing", timingCount)
 	e.R.SetExtra("a_resume_grace_ms", transfer.VerifC17ResumeGrace().Milliseconds())
 	e.R.SetExtra("hook_hits", verifhook.AllHits())
+	bobs.report(e)
 	e.R.SetExtra("a_wall_s", time.Since(start).Seconds())
 	e.R.Require(completed*10 >= len(traces)*8, fmt.Sprintf("C17(a): only %d of %d traces completed", completed, len(traces)))
 	e.R.Require(tagCount["plan-after-first-take"] >= 1, "C17(a): no trace in which the plan was applied after chunks had been handed out")
